@@ -11,7 +11,6 @@ package h_labelidx
 import (
 	"fmt"
 	"net/netip"
-	"os"
 	"sort"
 	"strings"
 	"testing"
@@ -700,9 +699,9 @@ func run(r *core.R) {
 	w.viaOnUpdate = src.Chance(500, "via_onupdate")
 	w.inplace = src.Chance(350, "inplace_selector_change")
 	w.selDepth = src.Range(0, 3, "sel_depth")
-	// Duplicate references to one profile inside a single endpoint crash the named-port index
-	// (see the engine report); the dimension is therefore opt-in so that it does not mask everything else.
-	w.dupParents = os.Getenv("VERIF_LABELIDX_DUP_PARENTS") != "" && src.Chance(500, "dup_parent_refs")
+	// An endpoint may list the same profile more than once (nothing upstream deduplicates
+	// Spec.Profiles); the first occurrence decides and the repeats must be harmless.
+	w.dupParents = src.Chance(400, "dup_parent_refs")
 	if w.c04 {
 		w.hostBits = src.Chance(300, "host_bits")
 		w.slash0 = src.Chance(400, "slash0")
